@@ -40,6 +40,7 @@ FLAVOURS = {
     "plain": ("gcc", ["-O2", "-g"], [], []),
     "wrap": ("gcc", ["-O1", "-g", "-DUSE_WRAP"] + SAN, ["wrap.c"],
              ["-Wl," + ",".join("--wrap=" + w for w in WRAPS)]),
+    "poke": ("gcc", ["-O2", "-g", "-DHAVE_POKE"], ["poke.c"], []),  # tools/table_mutants.py only
     "wrapplain": ("gcc", ["-O2", "-g", "-DUSE_WRAP"], ["wrap.c"],
                   ["-Wl," + ",".join("--wrap=" + w for w in WRAPS)]),
 }
@@ -230,7 +231,7 @@ def _crash_sig(what):
     return "crash:" + what
 
 
-def run_lines(binary, items, tag="l", nproc=None, env_extra=None, chunk=20000):
+def run_lines(binary, items, tag="l", nproc=None, env_extra=None, chunk=20000, prelude=()):
     """items: list of (mask, text, start). Returns aligned list of dicts:
     {rc, off, lo, hi, bytes} or {crash:{...}}."""
     nproc = nproc or NPROC
@@ -247,7 +248,7 @@ def run_lines(binary, items, tag="l", nproc=None, env_extra=None, chunk=20000):
         rounds = 0
         while pos < e:
             rounds += 1
-            script = ["case %d" % bi]
+            script = ["case %d" % bi] + list(prelude)
             for k in range(pos, e):
                 m, t, st = items[k]
                 script.append("line %s %s %d" % (m, hx(t), st))
@@ -255,7 +256,7 @@ def run_lines(binary, items, tag="l", nproc=None, env_extra=None, chunk=20000):
             crash_rec = None
             if recs and recs[-1].startswith("X "):
                 crash_rec = recs.pop()
-            body = recs[1:] if recs else []
+            body = recs[1 + len(prelude):] if recs else []
             for j, r in enumerate(body):
                 results[pos + j] = _parse_L(r)
             k = pos + len(body)
